@@ -289,7 +289,20 @@ def main(argv) -> int:
                 alias_bad.append('%s.%s_%d is not %s' % ('.'.join(nsp), short, major, newest['id']))
         except Exception as ex:  # noqa: BLE001
             alias_bad.append('%s.%s_%d: %s' % ('.'.join(nsp), short, major, type(ex).__name__))
-    real_stdout.write(json.dumps({'out': out, 'defaults': defaults, 'alias_bad': alias_bad, 'alias_checked': len(groups)}))
+    # `_MODEL_.source_file_path`: a pure POSIX path relative to the parent of the root namespace directory (filter_pickle, /repo b86b49b)
+    import pathlib
+    path_bad = []
+    for key in ORDER:
+        c = drv.TYPES[key]
+        try:
+            mdl = ns.get_model(drv.get_cls(key))
+            got = mdl.source_file_path
+            want = str(c['source']).replace(os.sep, '/')
+            if not (isinstance(got, pathlib.PurePosixPath) and not got.is_absolute() and str(got) == want):
+                path_bad.append('%s: %r, expected PurePosixPath(%r)' % (key, got, want))
+        except Exception as ex:  # noqa: BLE001
+            path_bad.append('%s: %s' % (key, type(ex).__name__))
+    real_stdout.write(json.dumps({'out': out, 'defaults': defaults, 'alias_bad': alias_bad, 'alias_checked': len(groups), 'path_bad': path_bad}))
     real_stdout.flush()
     return 0
 
